@@ -458,6 +458,11 @@ impl Script for C08Script {
             }
             return rows;
         }
+        if stmt.shape == client::Q_PREPARED_SELECT && rq.marker.map(|m| m >= 1_000_000).unwrap_or(false) {
+            // Two rows: read with page size 1 this gives a first page with more pages.
+            let r = crate::cluster::default_rows(stmt, rq.marker);
+            return vec![r[0].clone(), r[0].clone()];
+        }
         if stmt.shape == VEC_Q {
             let mut rows = vec_rows();
             if let Some(len) = self.vec_cell_len {
@@ -1004,6 +1009,43 @@ async fn main(plan: Plan) -> Outcome {
                         if clean {
                             out.violation("c08.roundtrip", format!("clean execute failed: {e}"));
                         }
+                    }
+                }
+            }
+        }
+        // S2b: the statement's result metadata changes on the node (new result metadata
+        // id); the next execution is a paged one, so its first answer carries the new id
+        // AND a paging state (with the metadata-id extension).
+        {
+            {
+                let mut w = world::world();
+                if let Some(idx) = w.cluster.find_stmt(client::Q_PREPARED_SELECT) {
+                    w.cluster.catalog[idx].schema_version += 1;
+                }
+            }
+            m += 1;
+            let m2 = 1_000_000 + m;
+            let mut p2 = p.clone();
+            p2.set_page_size(1);
+            p2.set_use_cached_result_metadata(true);
+            let fut = async {
+                use futures::StreamExt;
+                let pager = session.execute_iter(p2, (1i64, m2 as i64)).await.map_err(|e| e.to_string())?;
+                let mut stream = pager.rows_stream::<(i64,)>().map_err(|e| e.to_string())?;
+                let mut rows = Vec::new();
+                while let Some(r) = stream.next().await {
+                    rows.push(r.map_err(|e| e.to_string())?.0);
+                    if rows.len() > ROW_CAP {
+                        break;
+                    }
+                }
+                Ok::<_, String>(rows)
+            };
+            if let Some(r) = step(&mut out, "execute_paged_after_schema_change", fut).await {
+                if clean {
+                    match r {
+                        Ok(v) if v == vec![m2 as i64, m2 as i64] => out.count("paged_after_schema_change_equal", 1),
+                        other => out.violation("c08.roundtrip", format!("paged execution after a result-metadata change: {other:?}")),
                     }
                 }
             }
